@@ -26,6 +26,9 @@ var (
 	wfRespIDs  map[int32]bool
 	wfReqNames map[string]bool
 	wfInjected int
+
+	staleMu    sync.Mutex
+	staleSends []func(msg interface{}) error
 )
 
 func init() {
@@ -105,6 +108,47 @@ func init() {
 			}(i, n)
 		}
 		wg.Wait()
+		return out, nil
+	})
+
+	// rpc_listen: register a session-open listener (public API) that keeps the send function of every session opened
+	// from now on. rpc_send_stale: send a TM registration through every kept send function, live or not, the way a
+	// listener does that gets round to its announcement after the session has already gone.
+	register("rpc_listen", func(arg json.RawMessage) (interface{}, error) {
+		getty.AddSessionOpenListener("verif-c14-stale", func(send func(msg interface{}) error) {
+			staleMu.Lock()
+			staleSends = append(staleSends, send)
+			staleMu.Unlock()
+		})
+		return map[string]bool{"ok": true}, nil
+	})
+	register("rpc_send_stale", func(arg json.RawMessage) (interface{}, error) {
+		var a struct {
+			Times int `json:"times"`
+		}
+		if err := json.Unmarshal(arg, &a); err != nil {
+			return nil, err
+		}
+		staleMu.Lock()
+		sends := append([]func(msg interface{}) error{}, staleSends...)
+		staleMu.Unlock()
+		var out []rpcCallRes
+		for i, send := range sends {
+			for k := 0; k < a.Times; k++ {
+				res := rpcCallRes{Name: fmt.Sprintf("session-%d/%d", i, k)}
+				func() {
+					defer func() {
+						if r := recover(); r != nil {
+							res.Panic = fmt.Sprint(r)
+						}
+					}()
+					if err := send(message.RegisterTMRequest{AbstractIdentifyRequest: message.AbstractIdentifyRequest{Version: "1.1.0", ApplicationId: "verif-stale", TransactionServiceGroup: "default_tx_group"}}); err != nil {
+						res.Err = err.Error()
+					}
+				}()
+				out = append(out, res)
+			}
+		}
 		return out, nil
 	})
 
